@@ -195,6 +195,7 @@ def run_check(check, tier, seed, replay=None):
     viol = {}           # sig -> (case, outcomes, verdict, count)
     known_hits = {}     # slug -> count
     inconc = {}
+    dc_reasons = {}
     cross = {'checked': 0, 'mismatch': 0}
     cross_jobs = []
     every = check.crosscheck_every.get(tier, 40)
@@ -258,6 +259,8 @@ def run_check(check, tier, seed, replay=None):
                         viol[key][3] += 1
                     elif v.status == 'inconclusive':
                         inconc[v.sig] = inconc.get(v.sig, 0) + 1
+                    elif v.status == 'dont_care':
+                        dc_reasons[v.sig] = dc_reasons.get(v.sig, 0) + 1
                 if len(samples) < 3 and vs and any(v.status == 'held' for v in vs):
                     try:
                         samples.append(check.sample_of(c, oc))
@@ -357,6 +360,7 @@ def run_check(check, tier, seed, replay=None):
         'cli_crosscheck_mismatch': cross['mismatch'],
         'known_findings_hit': known_hits,
         'inconclusive': inconc,
+        'dont_care_reasons': dict(sorted(dc_reasons.items(), key=lambda kv: -kv[1])[:20]),
         'violation_signatures': [v.sig for v, _, _ in report],
         'median_cpu_s': sorted(cpu)[len(cpu) // 2] if cpu else None,
         'repo': runner.repo_root(),
